@@ -4,6 +4,27 @@ import DL.Lemmas.CFClaims9
 (from a state whose keys are fresh): the mutual induction. -/
 namespace DL.CF
 
+/-- a block among the kids (class static block) -/
+theorem kidBlock_claims (q : Nat) (body : Stmts) (a : A) (hpre : PreK (Kid.block q body).positions a)
+    (ih : ∀ x, PreK body.positions x → LClaims body (visitStmts body x).info) :
+    KdClaims (.block q body) (visitKid (.block q body) a).info := by
+  simp only [Kid.positions] at hpre
+  have hnd := List.nodup_cons.mp hpre.nodup
+  have hb := ih a (hpre.sub (fun u hu => List.mem_cons_of_mem _ hu) hnd.2)
+  simp only [visitKid]
+  have hb' : LClaims body (blockTail q (visitStmts body a)).info := by
+    refine hb.transport (fun u hu => ?_)
+    have hne : u ≠ q := fun e => hnd.1 (e ▸ hu)
+    exact blockTail_info _ _ _ hne
+  exact hb'.mono (fun u hu => by simpa [Kid.stopViol] using hu) (fun c hc => by simpa [Kid.swCases] using hc)
+    (fun g hg => by simpa [Kid.getters] using hg)
+
+/-- a statement among the kids (`with` body) -/
+theorem kidStmt_claims (s : Stmt) (a : A) (h : SClaims s [] (visitStmt s a).info) : KdClaims (.stmt s) (visitKid (.stmt s) a).info := by
+  simp only [visitKid]
+  exact h.mono (fun u hu => by simpa [Kid.stopViol] using hu) (fun c hc => by simpa [Kid.swCases] using hc)
+    (fun g hg => by simpa [Kid.getters] using hg)
+
 mutual
 theorem Stmt.claims_ok : ∀ (s : Stmt) (ls : List Id) (a : A), s.inF = true → PreK s.positions a →
     SClaims s ls (visitStmt s a).info
@@ -14,28 +35,43 @@ theorem Stmt.claims_ok : ∀ (s : Stmt) (ls : List Id) (a : A), s.inF = true →
     have hf' : b.inF = true := by simpa [Stmt.inF] using hf
     block_claims ls p b a hf h (fun x hx => Stmts.claims_ok b x hf' hx)
   | .ifS p t c none, ls, a, hf, h =>
-    have hf' : t.okF = true ∧ c.inF = true := by simpa [Stmt.inF] using hf
+    have hf' : t.okF = true ∧ c.inF = true := by
+      have : (t.okF = true ∧ t.compl.plain = true) ∧ c.inF = true := by simpa [Stmt.inF] using hf
+      exact ⟨this.1.1, this.2⟩
     if_none_claims ls p t c a hf h (fun x hx => Kids.claims_ok t x hf'.1 hx) (fun x hx => Stmt.claims_ok c [] x hf'.2 hx)
   | .ifS p t c (some al), ls, a, hf, h =>
-    have hf' : (t.okF = true ∧ c.inF = true) ∧ al.inF = true := by simpa [Stmt.inF] using hf
+    have hf' : (t.okF = true ∧ c.inF = true) ∧ al.inF = true := by
+      have : ((t.okF = true ∧ t.compl.plain = true) ∧ c.inF = true) ∧ al.inF = true := by simpa [Stmt.inF] using hf
+      exact ⟨⟨this.1.1.1, this.1.2⟩, this.2⟩
     if_some_claims ls p t c al a hf h (fun x hx => Kids.claims_ok t x hf'.1.1 hx) (fun x hx => Stmt.claims_ok c [] x hf'.1.2 hx)
       (fun x hx => Stmt.claims_ok al [] x hf'.2 hx)
   | .whileS p t tt b, ls, a, hf, h =>
-    have hf' : t.okF = true ∧ b.inF = true := by simpa [Stmt.inF] using hf
+    have hf' : t.okF = true ∧ b.inF = true := by
+      have : ((t.okF = true ∧ t.compl.plain = true) ∧ (tt = false ∨ t.pure = true)) ∧ b.inF = true := by simpa [Stmt.inF] using hf
+      exact ⟨this.1.1.1, this.2⟩
     while_claims ls p t tt b a hf h (fun x hx => Kids.claims_ok t x hf'.1 hx) (fun x hx => Stmt.claims_ok b [] x hf'.2 hx)
   | .doWhileS p b t tt, ls, a, hf, h =>
-    have hf' : t.okF = true ∧ b.inF = true := by simpa [Stmt.inF] using hf
+    have hf' : t.okF = true ∧ b.inF = true := by
+      have : (t.okF = true ∧ t.pure = true) ∧ b.inF = true := by simpa [Stmt.inF] using hf
+      exact ⟨this.1.1, this.2⟩
     doWhile_claims ls p b t tt a hf h (fun x hx => Kids.claims_ok t x hf'.1 hx) (fun x hx => Stmt.claims_ok b [] x hf'.2 hx)
   | .forS p i u t ht tt b, ls, a, hf, h =>
-    have hf' : ((i.okF = true ∧ u.okF = true) ∧ t.okF = true) ∧ b.inF = true := by simpa [Stmt.inF] using hf
+    have hf' : ((i.okF = true ∧ u.okF = true) ∧ t.okF = true) ∧ b.inF = true := by
+      have : ((((i.okF = true ∧ i.compl.plain = true) ∧ (u.okF = true ∧ u.pure = true)) ∧
+        ((t.okF = true ∧ t.compl.plain = true) ∧ (tt = false ∨ t.pure = true))) ∧ b.inF = true) := by simpa [Stmt.inF] using hf
+      exact ⟨⟨⟨this.1.1.1.1, this.1.1.2.1⟩, this.1.2.1.1⟩, this.2⟩
     for_claims ls p i u t ht tt b a hf h (fun x hx => Kids.claims_ok i x hf'.1.1.1 hx) (fun x hx => Kids.claims_ok u x hf'.1.1.2 hx)
       (fun x hx => Kids.claims_ok t x hf'.1.2 hx) (fun x hx => Stmt.claims_ok b [] x hf'.2 hx)
   | .forInOf p l r b, ls, a, hf, h =>
-    have hf' : (l.okF = true ∧ r.okF = true) ∧ b.inF = true := by simpa [Stmt.inF] using hf
+    have hf' : (l.okF = true ∧ r.okF = true) ∧ b.inF = true := by
+      have : ((l.okF = true ∧ l.pure = true) ∧ (r.okF = true ∧ r.compl.plain = true)) ∧ b.inF = true := by simpa [Stmt.inF] using hf
+      exact ⟨⟨this.1.1.1, this.1.2.1⟩, this.2⟩
     forInOf_claims ls p l r b a hf h (fun x hx => Kids.claims_ok l x hf'.1.1 hx) (fun x hx => Kids.claims_ok r x hf'.1.2 hx)
       (fun x hx => Stmt.claims_ok b [] x hf'.2 hx)
   | .switchS p d cs, ls, a, hf, h =>
-    have hf' : d.okF = true ∧ cs.inF = true := by simpa [Stmt.inF] using hf
+    have hf' : d.okF = true ∧ cs.inF = true := by
+      have : (d.okF = true ∧ d.pure = true) ∧ cs.inF = true := by simpa [Stmt.inF] using hf
+      exact ⟨this.1.1, this.2⟩
     have hp : p ∉ cs.upos := fun hm =>
       (List.nodup_cons.mp h.nodup).1 (List.mem_append.mpr (Or.inr (Cases.upos_sub cs p hm)))
     switch_claims ls p d cs a hf h (fun x hx => Kids.claims_ok d x hf'.1 hx)
@@ -55,10 +91,14 @@ theorem Stmt.claims_ok : ∀ (s : Stmt) (ls : List Id) (a : A), s.inF = true →
   | .brk p l, ls, a, _, _ => brk_claims ls p l _
   | .cont p l, ls, a, _, _ => cont_claims ls p l _
   | .ret p arg, ls, a, hf, h =>
-    have hf' : arg.okF = true := by simpa [Stmt.inF] using hf
+    have hf' : arg.okF = true := by
+      have : arg.okF = true ∧ arg.compl.plain = true := by simpa [Stmt.inF] using hf
+      exact this.1
     ret_claims ls p arg a h (fun x hx => Kids.claims_ok arg x hf' hx)
   | .throw p arg, ls, a, hf, h =>
-    have hf' : arg.okF = true := by simpa [Stmt.inF] using hf
+    have hf' : arg.okF = true := by
+      have : arg.okF = true ∧ arg.compl.plain = true := by simpa [Stmt.inF] using hf
+      exact this.1
     throw_claims ls p arg a h (fun x hx => Kids.claims_ok arg x hf' hx)
 theorem Stmts.claims_ok : ∀ (l : Stmts) (a : A), l.inF = true → PreK l.positions a → LClaims l (visitStmts l a).info
   | .nil, a, _, _ => Claims.nil _
@@ -72,8 +112,12 @@ theorem Kid.claims_ok : ∀ (k : Kid) (a : A), k.okF = true → PreK k.positions
   | .fnScope p ks, a, hf, h =>
     have hf' : ks.okFn = true := by simpa [Kid.okF] using hf
     fnScope_claims p ks a hf' h (fun x hx => Kids.claims_okFn ks x hf' hx)
-  | .block _ _, _, hf, _ => by simp [Kid.okF] at hf
-  | .stmt _, _, hf, _ => by simp [Kid.okF] at hf
+  | .block q body, a, hf, h =>
+    have hf' : body.inF = true := by simpa [Kid.okF] using hf
+    kidBlock_claims q body a h (fun x hx => Stmts.claims_ok body x hf' hx)
+  | .stmt s, a, hf, h =>
+    have hf' : s.inF = true := by simpa [Kid.okF] using hf
+    kidStmt_claims s a (Stmt.claims_ok s [] a hf' (by simpa [Kid.positions] using h))
 theorem Kids.claims_ok : ∀ (ks : Kids) (a : A), ks.okF = true → PreK ks.positions a → KClaims ks (visitKids ks a).info
   | .nil, a, _, _ => Claims.nil _
   | .cons k r, a, hf, h =>
@@ -86,7 +130,9 @@ theorem Kids.claims_okFn : ∀ (ks : Kids) (a : A), ks.okFn = true → PreK ks.p
     kidsBlock_claims q body a h (fun x hx => Stmts.claims_ok body x hf' hx)
   | .cons (.block q body) (.cons _ _), _, hf, _ => by simp [Kids.okFn, Kids.isNil] at hf
   | .cons (.expr e ks) r, a, hf, h =>
-    have hf' : ks.okF = true ∧ r.okFn = true := by simpa [Kids.okFn] using hf
+    have hf' : ks.okF = true ∧ r.okFn = true := by
+      have : (ks.okF = true ∧ ks.pure = true) ∧ r.okFn = true := by simpa [Kids.okFn] using hf
+      exact ⟨this.1.1, this.2⟩
     kidsCons_claims (.expr e ks) r a h (fun x hx => Kid.claims_ok (.expr e ks) x (by simpa [Kid.okF] using hf'.1) hx)
       (fun x hx => Kids.claims_okFn r x hf'.2 hx)
   | .cons (.fnScope p ks) r, a, hf, h =>
@@ -98,7 +144,9 @@ theorem Cases.claims_ok : ∀ (cs : Cases) (sp : Nat) (a : A), cs.inF = true →
     (stopsEnd a.sc.end_ = true → a.info.ur sp = true) → CClaims cs sp (visitCases cs a).info
   | .nil, sp, a, _, _, _, _ => Claims.nil _
   | .cons p d t body r, sp, a, hf, h, hsp, he =>
-    have hf' : (t.okF = true ∧ body.inF = true) ∧ r.inF = true := by simpa [Cases.inF] using hf
+    have hf' : (t.okF = true ∧ body.inF = true) ∧ r.inF = true := by
+      have : ((t.okF = true ∧ t.pure = true) ∧ body.inF = true) ∧ r.inF = true := by simpa [Cases.inF] using hf
+      exact ⟨⟨this.1.1.1, this.1.2⟩, this.2⟩
     have hspr : sp ∉ r.upos := fun hm => hsp (by simp [Cases.upos, hm])
     casesCons_claims sp p d t body r a hf h hsp he (fun x hx => Kids.claims_ok t x hf'.1.1 hx)
       (fun x hx => Stmts.claims_ok body x hf'.1.2 hx) (fun x hx he' => Cases.claims_ok r sp x hf'.2 hx hspr he')
